@@ -206,7 +206,22 @@ impl<'a> Walk<'a> {
                 _ => 1 + rng.below(rto.max(1).saturating_mul(3)),
             }
         } else {
-            match rng.below(8) {
+            match rng.below(10) {
+                // exactly at (or 1 ns around) a retransmission slot / the default deadline: the
+                // response and the timer expiry fall on the same instant
+                8 => {
+                    let k = 1 + rng.below(5) as u32;
+                    let slot = rto.saturating_mul((1u64 << k) - 1);
+                    match rng.below(4) {
+                        0 => slot.saturating_sub(1).max(1),
+                        1 => slot.saturating_add(1),
+                        _ => slot.max(1),
+                    }
+                }
+                9 => {
+                    let (num, den) = *rng.pick(&[(1u64, 3u64), (1, 2), (1, 4), (2, 3), (1, 1)]);
+                    (rto / den).saturating_mul(num).max(1)
+                }
                 0 => 1 + rng.below(1_000),
                 1 | 2 => 1_000 + rng.below(rto.max(2)),
                 3 => rto.saturating_add(rng.below(rto.max(1).saturating_mul(4))),
